@@ -311,6 +311,36 @@ func runDemux(sc *streamScenario, rec *recorder) {
 	cr := &countSeekReader{countReader{r: bytes.NewReader(bs.bytes)}}
 	dmx := newDemuxer(cr, sc.Run)
 	drainData(dmx, len(bs.pkts)+len(bs.units)*4+10, func() int { return cr.pulled }, rec.ev)
+	if sc.Run.API == "packed" {
+		runPacked(sc, rec)
+	}
+}
+
+// runPacked: two sections packed the way ISO/IEC 13818-1 2.4.4 allows: section A ends in the packet in which section B starts; that packet
+// has payload_unit_start set and its pointer_field counts the bytes of A's tail in front of B
+func runPacked(sc *streamScenario, rec *recorder) {
+	r := newRng(sc.Seed ^ 0x9a9a)
+	var a, b []byte
+	var ma, mb *tableModel
+	for {
+		ma, mb = randTable(r, "sdt", 3, 40), randTable(r, "sdt", 1, 0)
+		a, b = twinSection(ma), twinSection(mb)
+		if len(a) > 190 && len(a) < 183+100 && 1+(len(a)-183)+len(b) <= 184 && ma.Ext != mb.Ext {
+			break
+		}
+	}
+	pid := 0x11
+	tail := len(a) - 183
+	p1 := packetise(pid, append([]byte{0}, a[:183]...), 5)
+	u2 := append(append([]byte{byte(tail)}, a[183:]...), b...)
+	p2 := packetise(pid, u2, 6)
+	stream := append(p1, p2...)
+	rec.ev(M{"ev": "reset", "t": sc.SID + "/packed", "kind": "demux", "npkts": 2, "packing": "section-tail-behind-next-pointer-field"})
+	rec.ev(M{"ev": "unit", "id": 1, "pid": pid, "t": "psi", "items": []item{{K: "sdt", Ident: ma.Ext}}, "lastpkt": 2, "firstpkt": 1, "npk": 2, "gpk": 2, "opt": false})
+	rec.ev(M{"ev": "unit", "id": 2, "pid": pid, "t": "psi", "items": []item{{K: "sdt", Ident: mb.Ext}}, "lastpkt": 2, "firstpkt": 2, "npk": 1, "gpk": 1, "opt": false})
+	cr := &countSeekReader{countReader{r: bytes.NewReader(stream)}}
+	dmx := newDemuxer(cr, demuxRun{})
+	drainData(dmx, 20, func() int { return cr.pulled }, rec.ev)
 }
 
 // ---------- C06: clean / faulted pairs ----------
